@@ -14,6 +14,7 @@ import sys
 import textwrap
 
 _module_cache: dict = {}
+_lambda_cache: dict = {}
 
 
 class SourceError(Exception):
@@ -115,7 +116,10 @@ def node_of_native(pyfunc):
 
 def find_lambda(mod, lineno, code=None):
     tree, text, index = _parse_module(mod)
-    cands = [n for n in ast.walk(tree) if isinstance(n, ast.Lambda) and n.lineno <= lineno <= (n.end_lineno or n.lineno)]
+    lambdas = _lambda_cache.get(mod.__file__)
+    if lambdas is None:
+        lambdas = _lambda_cache[mod.__file__] = [n for n in ast.walk(tree) if isinstance(n, ast.Lambda)]  # one walk per module
+    cands = [n for n in lambdas if n.lineno <= lineno <= (n.end_lineno or n.lineno)]
     if code is not None and len(cands) > 1:
         names = code.co_varnames[: code.co_argcount]
         c2 = [n for n in cands if tuple(a.arg for a in n.args.args) == tuple(names)]
@@ -123,6 +127,18 @@ def find_lambda(mod, lineno, code=None):
             cands = c2
     if code is not None and len(cands) > 1:
         c2 = [n for n in cands if n.lineno == lineno]
+        if c2:
+            cands = c2
+    if code is not None and len(cands) > 1 and hasattr(code, 'co_positions'):
+        # several lambdas with the same parameters on one line: the instructions of this code object lie inside
+        # the body of the lambda it was compiled from
+        pos = [p for p in code.co_positions() if None not in p and (p[2], p[3]) != (0, 0)]
+
+        def inside(n):
+            b = n.body
+            return all((b.lineno, b.col_offset) <= (l, c) and (el, ec) <= (b.end_lineno, b.end_col_offset) for (l, el, c, ec) in pos)
+
+        c2 = [n for n in cands if inside(n)] if pos else []
         if c2:
             cands = c2
     if not cands:
